@@ -68,7 +68,8 @@ def main():
     ap.add_argument('--readme', action='store_true')
     args = ap.parse_args()
     dirs = sorted(d for d in glob.glob(os.path.join(HERE, 'seeded', '*'))
-                  if os.path.isdir(d) and (not args.ids or
+                  if os.path.isdir(d) and os.path.basename(d) != 'retired'
+                  and (not args.ids or
                                            os.path.basename(d) in args.ids))
     missed = 0
     results = {}
